@@ -70,3 +70,91 @@ func VH_C07_V2StorageProof() {
 	}
 	vh.Reach("end")
 }
+
+// v1 storage proofs, through the real validateFileContracts: for a file of L
+// leaves whose contract commits to the plain Merkle root, the honest sibling
+// path of the challenged leaf is accepted in every era (completeness) and, for a
+// symbolic proof and leaf, acceptance implies the bytes that count in that era
+// are the file's bytes at the challenged index (soundness).
+func VH_C07_V1StorageProof() {
+	_, s := vhWorld("w")
+	era := vh.Choice("era", 3)
+	switch era {
+	case 0:
+		vh.Assume(s.childHeight() < s.Network.HardforkTax.Height)
+	case 1:
+		vh.Assume(vh.And(s.childHeight() >= s.Network.HardforkTax.Height, s.childHeight() < s.Network.HardforkStorageProof.Height))
+	default:
+		vh.Assume(vh.And(s.childHeight() >= s.Network.HardforkTax.Height, s.childHeight() >= s.Network.HardforkStorageProof.Height))
+	}
+	L := 1 + vh.Choice("leaves", vh.Param("maxleaves", 6))
+	last := 0
+	if vh.Param("lastall", 0) == 1 {
+		last = 1 + vh.Choice("lastlen", 64)
+	} else {
+		last = []int{1, 31, 63, 64}[vh.Choice("lastlen", 4)]
+	}
+	filesize := uint64(64*(L-1) + last)
+	data := make([][64]byte, L)
+	vh.Fill("file", &data)
+	// bytes of the last leaf that count towards the root in this era
+	eff := last
+	if era == 0 {
+		eff = 64
+	} else if era == 1 {
+		eff = last % 64 // the old rule cuts a full last leaf to nothing
+	}
+	for j := eff; j < 64; j++ {
+		data[L-1][j] = 0
+	}
+	lh := make([]types.Hash256, L)
+	for i := range data {
+		lh[i] = s.StorageProofLeafHash(data[i][:])
+	}
+	var fce types.FileContractElement
+	vh.Fill("fce", &fce)
+	fce.ID = vh.GenuineID("supp.fc0")
+	fce.FileContract.Filesize = filesize
+	fce.FileContract.FileMerkleRoot = vhPlainTree(lh)
+	var windowID types.BlockID
+	vh.Fill("window", &windowID)
+	ts := V1TransactionSupplement{StorageProofs: []V1StorageProofSupplement{{FileContract: fce, WindowID: windowID}}}
+	idx := s.StorageProofLeafIndex(filesize, windowID, fce.ID)
+	k := -1
+	for i := 0; i < L; i++ {
+		if idx == uint64(i) {
+			k = i
+		}
+	}
+	vh.Assert(k >= 0, "challenge index outside the file")
+	if k < 0 {
+		return
+	}
+	honest := vhPlainPath(lh, k)
+	txn := types.Transaction{StorageProofs: []types.StorageProof{{ParentID: fce.ID, Leaf: data[k], Proof: honest}}}
+	vh.Assert(validateFileContracts(NewMidState(s), txn, ts) == nil, "honest v1 storage proof rejected")
+	// soundness
+	n := len(honest) + vh.Choice("lendelta", 3) - 1
+	if n < 0 {
+		return
+	}
+	proof := make([]types.Hash256, n)
+	vh.Fill("proof", &proof)
+	var leaf [64]byte
+	vh.Fill("leaf", &leaf)
+	txn2 := types.Transaction{StorageProofs: []types.StorageProof{{ParentID: fce.ID, Leaf: leaf, Proof: proof}}}
+	ok := validateFileContracts(NewMidState(s), txn2, ts) == nil
+	m := 64
+	if k == L-1 {
+		m = eff
+	}
+	same := true
+	for j := 0; j < m; j++ {
+		same = vh.And(same, leaf[j] == data[k][j])
+	}
+	vh.Assert(vh.Implies(ok, same), "v1 storage proof accepted for data that is not the challenged leaf")
+	if ok {
+		vh.Reach("accepted")
+	}
+	vh.Reach("end")
+}
